@@ -157,6 +157,10 @@ type vfWorld struct {
 	stopOnViolation bool
 	loginAttempts   []time.Time
 
+	waChallenges  []string
+	pendingDBFault  int
+	armedForStep    bool
+	faultedThisStep bool
 	groupHasRightInject bool
 	injectOK      int
 	tampered      bool
@@ -378,6 +382,7 @@ func (w *vfWorld) build() error {
 	}
 	eventNotifier = eventnotifier.New(vfNopLogger{})
 	u2fTrustedFacets = nil
+	vfResetGlobals()
 
 	cfgFile, err := w.writeConfig()
 	if err != nil {
